@@ -282,6 +282,33 @@ def lower3(ctx) -> List[Ob]:
             out.append(bad("LOWER-3", m.qualname, key, where, "; ".join(probs)))
         else:
             out.append(ok("LOWER-3", m.qualname, key, where, "push -> body -> seal -> pop -> else on every path"))
+        # the targets on the stack are the loop's own: `continue` goes where the end of the body goes (the block the
+        # body's last block is sealed to), `break` to the block that is opened last (the loop's exit)
+        key2 = f"{mname}: continue / break targets are the loop's head / exit"
+        pcall = pu.stmt.value if isinstance(pu.stmt, ast.Expr) else None
+        li = pcall.args[0] if isinstance(pcall, ast.Call) and pcall.args else None
+        if isinstance(li, ast.Name):
+            from .common import see_through
+
+            li = see_through(ctx, m, li) or li
+        seal_calls = [c for c in method_calls(m.node, "seal_block") if cfg.node_of(c) in between and c.args]
+        adds = [c for c in method_calls(m.node, "add_block") if c.args]
+        if isinstance(li, ast.Call) and len(li.args) >= 2 and seal_calls and adds:
+            head_t, exit_t = A.unparse(li.args[0]), A.unparse(li.args[1])
+            back_t = A.unparse(seal_calls[0].args[0])
+            last_add = sorted(adds, key=lambda c: A.lineno(c))[-1]
+            last_t = A.unparse(last_add.args[0])
+            p2 = []
+            if head_t != back_t:
+                p2.append(f"`continue` is sent to {head_t} but the end of the body goes to {back_t}: a taken continue skips (or repeats) what the regular back edge runs - with an and/or test the operands are not evaluated again")
+            if exit_t != last_t:
+                p2.append(f"`break` is sent to {exit_t} but the loop's exit block is {last_t}")
+            if p2:
+                out.append(bad("LOWER-3", m.qualname, key2, ctx.where(m, pu.stmt), "; ".join(p2)))
+            else:
+                out.append(ok("LOWER-3", m.qualname, key2, ctx.where(m, pu.stmt), f"continue -> {head_t} (= the sealing target of the body), break -> {exit_t} (= the block opened last)"))
+        else:
+            out.append(unresolved("LOWER-3", m.qualname, key2, where, "cannot read the indices pushed on the loop stack"))
     return out
 
 
@@ -778,6 +805,34 @@ def lower11(ctx) -> List[Ob]:
     return out
 
 
+@rule("LOWER-19", 1, "a front-end counter that numbers generated names (the and/or temporaries) is advanced before anything that can allocate from it again: every re-entrant lowering call of the method runs after the advance, and the name is built from the advanced value")
+def lower19(ctx) -> List[Ob]:
+    out: List[Ob] = []
+    front = ctx.prog.cls(FRONT)
+    n = 0
+    for m in front.methods.values():
+        cfg = ctx.cfg(m)
+        advs = [s for s in A.walk_no_nested(m.node) if isinstance(s, ast.AugAssign) and isinstance(s.op, ast.Add) and isinstance(s.target, ast.Attribute) and A.unparse(s.target.value) == "self" and s.target.attr.endswith("_index") and s.target.attr != "block_index"]
+        for adv in advs:
+            n += 1
+            cnt = A.unparse(adv.target)
+            key = f"{m.name}: {cnt} advanced before re-entrant lowering"
+            an = cfg.node_of(adv)
+            reentrant = [c for c in A.walk_no_nested(m.node) if isinstance(c, ast.Call) and isinstance(c.func, ast.Attribute) and A.unparse(c.func.value) == "self" and (c.func.attr.startswith("handle_") or c.func.attr == "codegen")]
+            early = [c for c in reentrant if an is not None and cfg.node_of(c) is not None and not cfg.dominates(an, cfg.node_of(c))]
+            # names built from the counter: f-strings reading it; reads before the advance must not be used for names
+            reads_before = [x for x in A.walk_no_nested(m.node) if isinstance(x, ast.Attribute) and A.unparse(x) == cnt and isinstance(x.ctx, ast.Load) and an is not None and cfg.node_of(x) is not None and not cfg.dominates(an, cfg.node_of(x)) and cfg.node_of(x) is not an]
+            if early:
+                out.append(bad("LOWER-19", m.qualname, key, ctx.where(m, early[0]), f"{A.unparse(early[0])[:50]} runs before {cnt} is advanced: a nested and/or that is lowered there is given the same number, the two temporaries clobber each other"))
+            elif reads_before:
+                out.append(bad("LOWER-19", m.qualname, key, ctx.where(m, reads_before[0]), f"{cnt} is read for a name before it is advanced"))
+            else:
+                out.append(ok("LOWER-19", m.qualname, key, ctx.where(m, adv), f"{cnt} += .. dominates every re-entrant call and every read"))
+    if n == 0:
+        raise AnalysisError("LOWER-19: no name counter found in the front end")
+    return out
+
+
 @rule("LOWER-12", 5, "front-end block indices are fresh: every handler reserves the indices self.block_index .. +n-1 it names and then advances the counter by at least n before anything else can allocate")
 def lower12(ctx) -> List[Ob]:
     out: List[Ob] = []
@@ -981,6 +1036,51 @@ def lower13(ctx) -> List[Ob]:
             t = _template_of(ctx, hf, c.args[0])
             if t is not None:
                 templates.append((c, t))
+    # a template that is chosen per path (`if ..: code = f".." else: code = f".."`): every variant must assign the
+    # same names - what a later template reads has to be there on every path
+    for c in method_calls(hf.node, "codegen"):
+        if not c.args:
+            continue
+        e = c.args[0]
+        for _ in range(3):
+            if isinstance(e, ast.Attribute) and e.attr == "body":
+                e = e.value
+            elif isinstance(e, ast.Call) and (A.dotted(e.func) or "") in ("ast.parse", "textwrap.dedent", "dedent") and e.args:
+                e = e.args[0]
+        if not isinstance(e, ast.Name):
+            continue
+        ds = [d for d in ctx.cfg(hf).reaching_defs(c, e.id) if d.stmt is not None and isinstance(d.stmt, ast.Assign)]
+        if len(ds) < 2:
+            continue
+        variants = []
+        for d in ds:
+            v = d.stmt.value
+            if isinstance(v, ast.Call) and (A.dotted(v.func) or "") in ("textwrap.dedent", "dedent") and v.args:
+                v = v.args[0]
+            if not (isinstance(v, ast.JoinedStr) or (isinstance(v, ast.Constant) and isinstance(v.value, str))):
+                variants = None
+                break
+            text, _phs = _symbolic_source(v)
+            try:
+                tr = ast.parse(textwrap.dedent(text)) if text is not None else None
+            except SyntaxError:
+                tr = None
+            if tr is None:
+                variants = None
+                break
+            variants.append((d, {A.unparse(t_) for st_ in tr.body if isinstance(st_, ast.Assign) for t_ in st_.targets}))
+        key = "template variants of " + e.id
+        if variants is None:
+            out.append(unresolved("LOWER-13", hf.qualname, key, ctx.where(hf, c), "the injected source is chosen per path and one variant is not a plain template"))
+        elif len({frozenset(a) for _d, a in variants}) > 1:
+            import re as _re2
+
+            allv = set().union(*[a for _d, a in variants])
+            short = next((d, allv - a) for d, a in variants if allv - a)
+            missing = sorted(_re2.sub(r"__ph_(\w+?)__", r"{\1}", x) for x in short[1])
+            out.append(bad("LOWER-13", hf.qualname, key, ctx.where(hf, short[0].stmt), f"on one path the injected statements do not assign {missing}: the templates that follow read it (the header saves the target's value before the first element is fetched) - UnboundLocalError where the original loop runs, because what is 'already bound' was decided by the order of the source text, not by the paths of the program"))
+        else:
+            out.append(ok("LOWER-13", hf.qualname, key, ctx.where(hf, c), "every variant assigns the same names"))
     if len(templates) < 2:
         out.append(unresolved("LOWER-13", hf.qualname, "injected templates", ctx.where(hf), "fewer than two injected source templates recognised in handle_for"))
         return out
@@ -1153,16 +1253,21 @@ def lower15(ctx) -> List[Ob]:
     cg = _codegen(ctx)
     fn = cg[0] if isinstance(cg, tuple) else cg
     subj = [p.arg for p in fn.params if p.arg != "self"][0]
-    # the arm for source blocks
+    # the arm for source blocks (locals that merely name `block.jump_targets` etc. are read through)
+    from .common import expanded_function as _xf15
+
+    fx = _xf15(fn)
+    A.set_parents(fx)
     top = None
-    for st in A.walk_no_nested(fn.node):
+    for st in A.walk_no_nested(fx):
         if isinstance(st, ast.If) and A.unparse(st.test) in (f"type({subj}) is PythonASTBlock", f"isinstance({subj}, PythonASTBlock)", f"type({subj}) == PythonASTBlock"):
             top = st
             break
-    if top is None or not top.body or not isinstance(top.body[0], ast.If):
+    first_if = next((s_ for s_ in (top.body if top is not None else []) if isinstance(s_, ast.If)), None)
+    if top is None or first_if is None or any(not isinstance(s_, (ast.Assign, ast.AnnAssign, ast.Expr)) for s_ in top.body[: top.body.index(first_if)]):
         out.append(unresolved("LOWER-15", fn.qualname, "source-block arms", ctx.where(fn), "the arm chain for PythonASTBlock was not found in the code generator"))
         return out
-    arms = chain_arms(top.body[0])
+    arms = chain_arms(first_if)
     for (r, v) in ((0, 0), (1, 1), (1, 0), (2, 2), (2, 1)):
         key = f"block with {r} raw / {v} visible successors"
         reached = []
